@@ -1,6 +1,7 @@
 /- Line-protocol driver: stdin lines `op<TAB>implementation-observation`, stdout lines
 `model-observation<TAB>spec-verdict`. Imports only Mathlib-free modules so that it links. -/
 import PasskeyVerif.Driver.Hid
+import PasskeyVerif.Driver.Psl
 open PasskeyVerif
 
 structure DriverState where
@@ -17,6 +18,7 @@ def stepLine (st : DriverState) (line : String) : DriverState × String :=
     if tok.startsWith "hid." then
       let (h, out) := Driver.Hid.step st.hid op impl
       ({ st with hid := h }, out)
+    else if tok.startsWith "psl." then (st, Driver.Psl.step op impl)
     else (st, "bad-op\tna")
   | [] => (st, "bad-op\tna")
 
